@@ -4,7 +4,9 @@ P=$1; shift
 cd /repo || exit 2
 git diff --quiet || { echo "/repo is dirty"; exit 2; }
 git apply "$P" || { echo "patch does not apply"; exit 2; }
+rm -rf /var/tmp/gv/evidence.bak; cp -r /verif/evidence /var/tmp/gv/evidence.bak   # evidence of runs on a changed tree must not be kept
 for id in "$@"; do
   (cd /verif; bin/check $id > /var/tmp/gv/refactor_out.txt 2>&1; rc=$?; echo "$(basename $P) $id exit=$rc"; grep "^VIOLATION\|^UNDECIDED\|^FAILED" /var/tmp/gv/refactor_out.txt | head -5)
 done
 git checkout -- .
+rm -rf /verif/evidence; cp -r /var/tmp/gv/evidence.bak /verif/evidence
